@@ -181,6 +181,11 @@ func c19NoRecover(c *vlib.Ctx) {
 					s.one(t, b, "byte-sweep")
 				}
 				c.Count("byte_sweep_variants", len(sw))
+				ws := cp.WordSweep(seed, c.Pick(200, 1500))
+				for _, b := range ws {
+					s.one(t, b, "word-sweep")
+				}
+				c.Count("word_sweep_variants", len(ws))
 				for _, b := range cp.LongRepeats(c.Rand(uint64(t), uint64(si), 99), seed, c.Pick(8, 60), 65536) {
 					s.one(t, b, "long-repeat")
 				}
